@@ -795,7 +795,7 @@ func runC10(w *World, r *Report) {
 	}
 
 	// ---- tool run info
-	r.Rule("C10.tool-runinfo", "runToolCallTaskByInvoke/ByStream: ReuseHandlers(RunInfo{Name: task.name, Type: meta.componentImplType, Component: meta.component}) then setToolCallInfo(callID)", 2)
+	r.Rule("C10.tool-runinfo", "runToolCallTaskByInvoke/ByStream: ReuseHandlers(RunInfo{Name: task.name, Type: meta.componentImplType, Component: meta.component}) then setToolCallInfo(callID), on every path", 4)
 	reuse := w.Fn("callbacks", "ReuseHandlers")
 	stci := w.Fn("compose", "setToolCallInfo")
 	for _, n := range []string{"runToolCallTaskByInvoke", "runToolCallTaskByStream"} {
@@ -847,6 +847,77 @@ func runC10(w *World, r *Report) {
 			}
 		}
 		r.Check(good, "C10.tool-runinfo", n, f.Pos(), "run info and call id derived from the task", "tool call does not get its own run info / call id:"+det)
+		// … on every path: whatever the tool (wrapped by the framework or firing its own callbacks), it runs under a context
+		// that went through ReuseHandlers — a self-reporting tool takes its run info from the context like every component
+		skip, wit := pathQuery{fn: f, goal: isReturn, avoid: func(in ssa.Instruction) bool { return isCallTo(in, reuse) }}.exists()
+		r.Check(!skip, "C10.tool-runinfo", n+": the run info is switched on every path", f.Pos(), "no path to the return avoids ReuseHandlers", "the switch to the tool call's own run info is conditional ("+wit+"): a tool that fires its own callbacks (IsCallbacksEnabled) then reports under the enclosing ToolsNode's run info — every handler sees the ToolsNode unit start and end twice with mixed payloads and the tool-call unit is never reported")
+	}
+
+	r.Rule("C10.timing-checker-optional", "TimingChecker is an optional interface: wherever a handler is asked through it, a handler that does not implement it is treated like one that answered 'needed' — the not-ok edge of the assertion and the true edge of Needed lead to the same place (the dispatch point of internal/callbacks and the handler helper of utils/callbacks must agree, or a plain callbacks.Handler behind the helper is never called)", 2)
+	{
+		n := 0
+		for _, fn := range w.RepoFuncs("") {
+			k := 0
+			instrs(fn, func(in ssa.Instruction) {
+				ta, ok := in.(*ssa.TypeAssert)
+				if !ok || !ta.CommaOk {
+					return
+				}
+				nt := namedOf(ta.AssertedType)
+				if nt == nil || nt.Obj().Name() != "TimingChecker" {
+					return
+				}
+				k++
+				var okV, val ssa.Value
+				for _, ref := range *ta.Referrers() {
+					if e, isE := ref.(*ssa.Extract); isE {
+						if e.Index == 1 {
+							okV = e
+						} else {
+							val = e
+						}
+					}
+				}
+				if okV == nil || val == nil {
+					return
+				}
+				n++
+				// where the run goes when the handler is not a TimingChecker
+				var notOK *ssa.BasicBlock
+				for _, ref := range *okV.Referrers() {
+					switch x := ref.(type) {
+					case *ssa.If:
+						notOK = x.Block().Succs[1]
+					case *ssa.UnOp:
+						if x.Op == token.NOT {
+							for _, r2 := range *x.Referrers() {
+								if iff, isIf := r2.(*ssa.If); isIf {
+									notOK = iff.Block().Succs[0]
+								}
+							}
+						}
+					}
+				}
+				// where it goes when Needed answers true
+				var needed *ssa.BasicBlock
+				for _, ref := range *val.Referrers() {
+					c, isC := ref.(*ssa.Call)
+					if !isC || !c.Call.IsInvoke() || c.Call.Method.Name() != "Needed" {
+						continue
+					}
+					for _, r2 := range *c.Referrers() {
+						if iff, isIf := r2.(*ssa.If); isIf {
+							needed = iff.Block().Succs[0]
+						}
+					}
+				}
+				good := notOK != nil && needed != nil && notOK == needed
+				r.Check(good, "C10.timing-checker-optional", fmt.Sprintf("%s: TimingChecker assertion #%d", w.fname(fn), k), ta.Pos(), "not a TimingChecker = needed", "a handler that does not implement TimingChecker is treated as 'not needed' here (or the two outcomes cannot be matched): a hand-written callbacks.Handler registered with NewHandlerHelper().Graph / Chain / Lambda is never invoked for any graph, chain or lambda unit, while the same handler passed directly to WithCallbacks fires")
+			})
+		}
+		if n < 2 {
+			undecidedf("C10.timing-checker-optional: only %d TimingChecker assertions found", n)
+		}
 	}
 
 	r.Rule("C10.designated-paths-all-forwarded", "extractOption visits every designated path of every option (a callbacks option designating several nodes reaches all of them, nested ones included) — the loops are left only when exhausted or with an error (shared with C16.visits-all)", 3)
